@@ -175,4 +175,231 @@ theorem lexAll_crlf (C : Classes) (t : Bytes) (h : CR ∉ t) :
       simp only [Function.comp_apply, List.length_append, List.length_singleton, Nat.zero_add]
       exact crShift_shift x a.length hp.1 hp.2
 
+/-! ### files that mix LF and CR LF line ends -/
+
+/-- `t` without its carriage returns -/
+def dropCR (t : Bytes) : Bytes := t.filter (· != CR)
+
+/-- number of carriage returns in `t` in front of its `k`-th line feed (all of them if `t` has
+    fewer line feeds) -/
+def crBefore : Bytes → Nat → Nat
+  | [], _ => 0
+  | _ :: _, 0 => 0
+  | c :: r, k + 1 => if c == LF then crBefore r k else (if c == CR then 1 else 0) + crBefore r (k + 1)
+
+/-- a token of `dropCR t` as it lies in `t`: every offset moved by the number of carriage
+    returns in front of the position's line -/
+def mixShift (t : Bytes) (x : Token) : Token :=
+  { x with pos := ⟨x.pos.line, x.pos.col, x.pos.off + crBefore t (x.pos.line - 1)⟩,
+           stop := ⟨x.stop.line, x.stop.col, x.stop.off + crBefore t (x.stop.line - 1)⟩ }
+
+theorem dropCR_append (a b : Bytes) : dropCR (a ++ b) = dropCR a ++ dropCR b := by simp [dropCR]
+
+theorem dropCR_noCR {a : Bytes} (h : CR ∉ a) : dropCR a = a := by
+  simp only [dropCR, List.filter_eq_self]
+  intro x hx
+  simpa using fun e : x = CR => h (e ▸ hx)
+
+theorem crBefore_zero (t : Bytes) : crBefore t 0 = 0 := by cases t <;> rfl
+
+theorem crBefore_line (a b : Bytes) (ha : LF ∉ a) (k : Nat) :
+    crBefore (a ++ LF :: b) (k + 1) = (a.filter (· == CR)).length + crBefore b k := by
+  induction a with
+  | nil => simp [crBefore]
+  | cons c a ih =>
+    have hc : (c == LF) = false := by simpa using fun e : c = LF => ha (by simp [e])
+    simp only [List.cons_append, crBefore, hc, Bool.false_eq_true, if_false, ih (fun m => ha (by simp [m])),
+      List.filter_cons]
+    split <;> simp <;> omega
+
+/-- in a text whose carriage returns all stand directly in front of a line feed, the first line
+    is `a0` or `a0 ++ [CR]` with no carriage return in `a0` -/
+theorem crOk_first_line {a b : Bytes} (h : CrOk (a ++ LF :: b) = true) (ha : LF ∉ a) :
+    (CR ∉ a ∨ ∃ a0, a = a0 ++ [CR] ∧ CR ∉ a0) ∧ CrOk b = true := by
+  induction a with
+  | nil =>
+    refine ⟨Or.inl (by simp), ?_⟩
+    cases b with
+    | nil => rfl
+    | cons d r => simp only [List.nil_append, CrOk, Bool.and_eq_true] at h; exact h.2
+  | cons c a ih =>
+    have ha' : LF ∉ a := fun m => ha (by simp [m])
+    have hcr : CrOk (a ++ LF :: b) = true := by
+      cases a with
+      | nil => simp only [List.cons_append, List.nil_append, CrOk, Bool.and_eq_true] at h ⊢; exact h.2
+      | cons d r => simp only [List.cons_append, CrOk, Bool.and_eq_true] at h ⊢; exact h.2
+    obtain ⟨h1, h2⟩ := ih hcr ha'
+    refine ⟨?_, h2⟩
+    by_cases hc : c = CR
+    · -- a carriage return is followed by a line feed: `a` is empty
+      subst hc
+      cases a with
+      | nil => exact Or.inr ⟨[], rfl, by simp⟩
+      | cons d r =>
+        simp only [List.cons_append, CrOk, Bool.and_eq_true, Bool.or_eq_true, bne_iff_ne, ne_eq,
+          not_true_eq_false, false_or, beq_iff_eq] at h
+        exact absurd h.1 (fun e => ha (by simp [e]))
+    · rcases h1 with h1 | ⟨a0, h1, h1'⟩
+      · refine Or.inl ?_
+        intro m; rcases List.mem_cons.mp m with e | e
+        · exact hc e.symm
+        · exact h1 e
+      · refine Or.inr ⟨c :: a0, by simp [h1], ?_⟩
+        intro m; rcases List.mem_cons.mp m with e | e
+        · exact hc e.symm
+        · exact h1' e
+
+theorem mixShift_shift (a b : Bytes) (ha : LF ∉ a) (x : Token) (n : Nat)
+    (h1 : 1 ≤ x.pos.line) (h2 : 1 ≤ x.stop.line) :
+    shiftTok 1 (n + (a.filter (· == CR)).length) (mixShift b x) = mixShift (a ++ LF :: b) (shiftTok 1 n x) := by
+  cases x with
+  | mk ty v p e =>
+    cases p with
+    | mk pl pc po =>
+      cases e with
+      | mk el ec eo =>
+        simp only at h1 h2
+        obtain ⟨k, rfl⟩ : ∃ k, pl = k + 1 := ⟨pl - 1, by omega⟩
+        obtain ⟨m, rfl⟩ : ∃ m, el = m + 1 := ⟨el - 1, by omega⟩
+        simp only [mixShift, shiftTok, shiftPos, Nat.add_sub_cancel, crBefore_line a b ha, Token.mk.injEq,
+          Pos.mk.injEq, true_and]
+        omega
+
+theorem countLF_take_le (l : Bytes) (k : Nat) : countLF (l.take k) ≤ countLF l := by
+  unfold countLF
+  exact ((List.take_sublist k l).filter _).length_le
+
+/-- the positions of the stream of one line `a ++ [LF]` are on lines 1 and 2 -/
+theorem lexAll_first_line (C : Classes) {a : Bytes} (ha : LF ∉ a) :
+    ∀ x ∈ lexAll C (a ++ [LF]), (1 ≤ x.pos.line ∧ x.pos.line ≤ 2) ∧ (1 ≤ x.stop.line ∧ x.stop.line ≤ 2) := by
+  intro x hx
+  rw [lexAll_eq_lexS] at hx
+  have h1 := lexS_lines C 1 _ (Z.init (a ++ [LF])) (Nat.le_refl _) (by simp [Z.init, countLF]) x hx
+  have h2 := lexS_stop_lines C 1 _ (Z.init (a ++ [LF])) (Nat.le_refl _) (by simp [Z.init, countLF]) x hx
+  have hc : countLF (a ++ [LF]) = 1 := by rw [countLF_append, countLF_of_not_mem ha]; rfl
+  have e : (Z.init (a ++ [LF])).input = a ++ [LF] := by simp [Z.init, Z.input]
+  rw [e] at h1 h2
+  have b1 := countLF_take_le (a ++ [LF]) x.pos.off
+  have b2 := countLF_take_le (a ++ [LF]) x.stop.off
+  omega
+
+/-- on the first line of `t = a ++ LF :: b` (lines 1 and 2) `mixShift t` moves nothing if `a`
+    has no carriage return, and is `crLine 1` if it has exactly one -/
+theorem mixShift_first_line (a b : Bytes) (ha : LF ∉ a) (x : Token)
+    (hp : 1 ≤ x.pos.line ∧ x.pos.line ≤ 2) (hs : 1 ≤ x.stop.line ∧ x.stop.line ≤ 2) :
+    ((a.filter (· == CR)).length = 0 → mixShift (a ++ LF :: b) x = x) ∧
+    ((a.filter (· == CR)).length = 1 → mixShift (a ++ LF :: b) x = crLine 1 x) := by
+  have c0 : crBefore (a ++ LF :: b) 0 = 0 := crBefore_zero _
+  have c1 : crBefore (a ++ LF :: b) 1 = (a.filter (· == CR)).length := by
+    rw [crBefore_line a b ha 0, crBefore_zero]; rfl
+  cases x with
+  | mk ty v p e =>
+    cases p with
+    | mk pl pc po =>
+      cases e with
+      | mk el ec eo =>
+        simp only at hp hs
+        have hpl : pl = 1 ∨ pl = 2 := by omega
+        have hel : el = 1 ∨ el = 2 := by omega
+        constructor
+        · intro h0
+          rcases hpl with rfl | rfl <;> rcases hel with rfl | rfl <;> simp [mixShift, c0, c1, h0]
+        · intro h1
+          rcases hpl with rfl | rfl <;> rcases hel with rfl | rfl <;> simp [mixShift, crLine, c0, c1, h1]
+
+/-- **Mixed line ends.**  For every byte string `t` in which a carriage return occurs only
+    directly in front of a line feed — LF files, CRLF files and files that mix the two — and
+    every classifier: the token stream of `t` is the token stream of `t` without its carriage
+    returns — same types, values, lines and columns — with every offset moved by the number of
+    carriage returns in front of the position's line. -/
+theorem lexAll_mixed (C : Classes) (t : Bytes) (h : CrOk t = true) :
+    lexAll C t = (lexAll C (dropCR t)).map (mixShift t) := by
+  generalize hn : t.length = n
+  induction n using Nat.strongRecOn generalizing t with
+  | _ n ih =>
+    rcases split_first_lf t with hno | ⟨a, b, rfl, ha⟩
+    · -- no line feed: a carriage return could only be the last byte, and `CrOk` forbids that
+      have hnc : CR ∉ t := by
+        intro m
+        obtain ⟨s, r, rfl⟩ := List.append_of_mem m
+        have := crOk_append_cr h
+        cases r with
+        | nil => simp [headIs] at this
+        | cons d r =>
+          simp only [headIs, beq_iff_eq] at this
+          exact hno (by simp [this])
+      rw [dropCR_noCR hnc]
+      symm
+      have : ∀ x ∈ lexAll C t, mixShift t x = x := by
+        intro x hx
+        obtain ⟨h1, h2⟩ := lexAll_one_line C hno x hx
+        cases x with
+        | mk ty v p e =>
+          cases p; cases e
+          simp only at h1 h2
+          simp [mixShift, h1, h2, crBefore_zero]
+      rw [List.map_congr_left this]; simp
+    · obtain ⟨hfirst, hb⟩ := crOk_first_line h ha
+      have hih := ih b.length (by rw [← hn]; simp; omega) b hb rfl
+      have hmap : ∀ (n : Nat), (List.map (mixShift b) (lexAll C (dropCR b))).map (shiftTok 1 (n + (a.filter (· == CR)).length))
+          = ((lexAll C (dropCR b)).map (shiftTok 1 n)).map (mixShift (a ++ LF :: b)) := by
+        intro n
+        rw [List.map_map, List.map_map]
+        apply List.map_congr_left
+        intro x hx
+        have hp := lexAll_lines_pos C (dropCR b) x hx
+        exact mixShift_shift a b ha x n hp.1 hp.2
+      rcases hfirst with hnc | ⟨a0, rfl, hnc⟩
+      · -- the first line ends in LF
+        have hd : dropCR (a ++ LF :: b) = a ++ LF :: dropCR b := by
+          rw [dropCR_append, dropCR_noCR hnc]; simp [dropCR]
+        have hcnt : (a.filter (· == CR)).length = 0 := by
+          simp only [List.length_eq_zero_iff, List.filter_eq_nil_iff]
+          intro x hx e
+          have : x = CR := by simpa using e
+          exact hnc (this ▸ hx)
+        have hfl : ∀ x ∈ (lexAll C (a ++ [LF])).dropLast, mixShift (a ++ LF :: b) x = x := by
+          intro x hx
+          have hl := lexAll_first_line C ha x ((List.dropLast_sublist _).subset hx)
+          exact (mixShift_first_line a b ha x hl.1 hl.2).1 hcnt
+        have hm := hmap (a.length + 1)
+        rw [hcnt, Nat.add_zero] at hm
+        have key : ∀ (f : Token → Token) (l : List Token), (l.map f).dropLast = l.dropLast.map f := by
+          intro f l; simp [List.map_dropLast]
+        rw [hd, lexAll_line_local C a b, lexAll_line_local C a (dropCR b), hih, List.map_append,
+          countLF_of_not_mem ha, Nat.zero_add, hm, List.map_congr_left hfl]
+        simp
+      · -- the first line ends in CR LF
+        have ha0 : LF ∉ a0 := fun m => ha (by simp [m])
+        have hd : dropCR (a0 ++ [CR] ++ LF :: b) = a0 ++ LF :: dropCR b := by
+          rw [dropCR_append, dropCR_append, dropCR_noCR hnc]; simp [dropCR]
+        have hcnt : ((a0 ++ [CR]).filter (· == CR)).length = 1 := by
+          have : a0.filter (· == CR) = [] := by
+            simp only [List.filter_eq_nil_iff]
+            intro x hx e
+            have : x = CR := by simpa using e
+            exact hnc (this ▸ hx)
+          simp [List.filter_append, this]
+        have hol : OL (Z.init (a0 ++ [LF])) := ⟨a0, rfl, ha0, hnc⟩
+        have hline : lexAll C (a0 ++ [CR] ++ [LF]) = (lexAll C (a0 ++ [LF])).map (crLine 1) := by
+          rw [lexAll_eq_lexS, lexAll_eq_lexS]
+          have : Z.init (a0 ++ [CR] ++ [LF]) = (Z.init (a0 ++ [LF])).crx := by
+            simp only [Z.init, Z.crx, crx_append]; simp
+          rw [this, lexS_crx C _ hol (Nat.le_refl _)]
+          rfl
+        have hfl : ∀ x ∈ (lexAll C (a0 ++ [LF])).dropLast, mixShift (a0 ++ [CR] ++ LF :: b) x = crLine 1 x := by
+          intro x hx
+          have hl := lexAll_first_line C ha0 x ((List.dropLast_sublist _).subset hx)
+          have hl' : (1 ≤ x.pos.line ∧ x.pos.line ≤ 2) ∧ (1 ≤ x.stop.line ∧ x.stop.line ≤ 2) := hl
+          exact (mixShift_first_line (a0 ++ [CR]) b ha x hl'.1 hl'.2).2 hcnt
+        have hm := hmap (a0.length + 1)
+        rw [hcnt] at hm
+        have hcl : countLF (a0 ++ [CR]) = 0 := countLF_of_not_mem ha
+        rw [hd, lexAll_line_local C (a0 ++ [CR]) b, lexAll_line_local C a0 (dropCR b), hih, List.map_append,
+          hline, hcl, countLF_of_not_mem ha0, Nat.zero_add]
+        have e1 : (a0 ++ [CR]).length + 1 = a0.length + 1 + 1 := by simp
+        have key : ∀ (f : Token → Token) (l : List Token), (l.map f).dropLast = l.dropLast.map f := by
+          intro f l; simp [List.map_dropLast]
+        rw [e1, hm, key, List.map_congr_left hfl]
+
 end HL.Lex
